@@ -43,6 +43,8 @@ def main(argv=None):
         print(f'unknown or unclaimed property {a.prop}', file=sys.stderr)
         return 3
     P = props.PROPS[a.prop]
+    if a.replay:
+        return replay_file(a, P, seed)
     specs = list(P['units']) + (list(P['thorough_extra']) if a.tier == 'thorough' else [])
     specs = [(k, m, n, dict(o, pid=a.prop, tier=a.tier, seed=seed, timeout_ms=(60000 if a.tier == 'thorough' else 10000)))
              for (k, m, n, o) in specs]
@@ -50,6 +52,44 @@ def main(argv=None):
     with ctx.Pool(min(a.jobs, max(1, len(specs))), maxtasksperchild=1) as pool:   # a fresh z3 context per unit
         results = pool.map(units.run_unit, specs, chunksize=1)
     return finish(a, P, results, seed, t0)
+
+
+def replay_file(a, P, seed):
+    """./vcheck Cxx --replay <replay file>: re-decides the obligation (or re-runs the end-to-end case) named in the file against the
+    CURRENT tree, with the counter-model replayed on the real code again.  Exit 1 + VIOLATION line if it still fails, 0 if it no longer
+    does, 3 if the file cannot be related to a unit of this property.  Writes no evidence and touches no replay file."""
+    from rxv import units
+    path = a.replay if os.path.isabs(a.replay) else os.path.join(HERE, a.replay)
+    try:
+        doc = json.load(open(path))
+    except Exception as ex:
+        print(f'cannot read replay file {a.replay}: {ex}', file=sys.stderr); return 3
+    want = doc.get('obligation', ''); unit = doc.get('unit')
+    specs = [(k, m, n, dict(o, pid=a.prop, tier=a.tier, seed=seed, timeout_ms=10000)) for (k, m, n, o) in P['units']]
+    ctx = mp.get_context('fork')
+    with ctx.Pool(min(a.jobs, max(1, len(specs))), maxtasksperchild=1) as pool:
+        results = pool.map(units.run_unit, specs, chunksize=1)
+    hits = []; seen_unit = False
+    for r in results:
+        if r.get('unit') != unit: continue
+        seen_unit = True
+        if r.get('kind') == 'bounded':
+            hits += [{'obligation': f'{r["unit"]}#{k}', 'replay': {'status': 'reproduced', 'failing_case': f}} for k, f in enumerate(r.get('failures', []))][:1]
+        else:
+            also = set(doc.get('other_failed_obligations_of_this_case', []))
+            hits += [v for v in r.get('violations', []) if v['obligation'] == want or v['obligation'] in also]
+    if not seen_unit:
+        print(f'replay file names unit {unit!r}, which is not a unit of {a.prop}', file=sys.stderr); return 3
+    if not hits:
+        print(f'{a.prop}: {want} no longer fails on the current tree'); return 0
+    for v in hits[:3]:
+        print(f'   still fails: {v["obligation"]} ({(v.get("replay") or {}).get("status")})')
+        rp = v.get('replay') or {}
+        for k_ in ('event', 'pre_state', 'emitted', 'failed_clauses', 'failing_case', 'end_to_end'):
+            if rp.get(k_) is not None: print(f'      {k_}: {str(rp[k_])[:400]}')
+    suffix = '' if any((v.get('replay') or {}).get('status') == 'reproduced' for v in hits) else ' no-failing-input-found'
+    print(f'VIOLATION property={a.prop} replay={a.replay}{suffix}')
+    return 1
 
 
 def finish(a, P, results, seed, t0):
